@@ -12,7 +12,7 @@ use tree_sitter::{Parser, Query, QueryCursor, QueryErrorKind, Tree};
 pub fn meta(tier: &str) -> CheckMeta {
     CheckMeta {
         id: "C05", level: "model_checking",
-        rule: "E-box over queries x trees. Query family (enumerated completely from a pattern AST, per language stmts/arith/jsonish): root in {3-4 named kinds, (_), _, anonymous, (ERROR), (MISSING), (MISSING kind), (MISSING \"tok\"), supertype, supertype/subtype}; 0..2 child patterns each in {named kinds, (_), _, anonymous, extra (comment), nested one-child pattern}; optional field per child; negated field; anchors in every slot (. a, a . b, a .); one alternation in a child slot; one quantifier in {?,*,+} on a child; a capture on every pattern node. Trees: seeds + all strings of <=2 lexemes (valid and erroneous) + trees after one edit and re-parse. Oracle: an independent backtracking matcher over the explicit tree, written from the query documentation. Soundness for every query: each returned match is one of the reference bindings. Completeness for quantifier-free patterns: the returned bindings equal the reference set, each exactly once. Compile time: a rejected pattern carries an error offset <= source length, and no rejected pattern has a reference match in an error-free tree. Alternations of two and three branches in every anchored slot (alone, first and last of two children, all anchor masks). Non-trivial = (query, tree) pairs with at least one reference match.",
+        rule: "E-box over queries x trees. Query family (enumerated completely from a pattern AST, per language stmts/arith/jsonish/nestf): root in {3-4 named kinds, (_), _, anonymous, (ERROR), (MISSING), (MISSING kind), (MISSING \"tok\"), supertype, supertype/subtype}; 0..2 child patterns each in {named kinds, (_), _, anonymous, extra (comment), nested one-child pattern}; optional field per child; negated field; anchors in every slot (. a, a . b, a .); one alternation in a child slot; one quantifier in {?,*,+} on a child; a capture on every pattern node. Trees: seeds + all strings of <=2 lexemes (valid and erroneous) + trees after one edit and re-parse. Oracle: an independent backtracking matcher over the explicit tree, written from the query documentation. Soundness for every query: each returned match is one of the reference bindings. Completeness for quantifier-free patterns: the returned bindings equal the reference set, each exactly once. Compile time: a rejected pattern carries an error offset <= source length, and no rejected pattern has a reference match in an error-free tree. Alternations of two and three branches in every anchored slot (alone, first and last of two children, all anchor masks). Non-trivial = (query, tree) pairs with at least one reference match.",
         assumptions: vec!["anchors adjacent to anonymous/wildcard child patterns and to quantified patterns are outside the asserted family (the documentation leaves them open)".into()],
         exhaustive: true,
         bounds: json!({"tier": tier, "max_children": 2, "tree_doc_lexemes": if tier == "thorough" { 3 } else { 2 }, "queries": "the whole family in both tiers"}),
@@ -40,6 +40,12 @@ fn qlangs() -> Vec<QLang> {
             roots: vec![nk("array"), nk("object"), nk("pair"), nk("string"), Kind::AnyNamed, Kind::Error],
             child_kinds: vec![Pat::new(nk("number")), Pat::new(nk("string")), Pat::new(nk("array")), Pat::new(Kind::AnyNamed), Pat::new(Kind::Any), Pat::new(Kind::Anon(",".into())), Pat::new(nk("pair")).child(Pat::new(nk("string")).field("key").cap("n1")), Pat::new(nk("escape"))],
             fields: vec!["key", "value"], supertype: None },
+        // fields on hidden rules that stay in the tree: two productions of `stmt` begin with the same hidden rule under
+        // different fields (the query analysis must keep both), `entry` nests an inner field inside a fielded hidden rule
+        QLang { name: "nestf",
+            roots: vec![nk("stmt"), nk("entry"), Kind::AnyNamed],
+            child_kinds: vec![Pat::new(nk("word")), Pat::new(nk("number")), Pat::new(Kind::AnyNamed), Pat::new(Kind::Any), Pat::new(Kind::Anon(":".into())), Pat::new(Kind::Anon("?".into()))],
+            fields: vec!["a", "b", "item", "key"], supertype: None },
     ]
 }
 
@@ -300,7 +306,7 @@ pub fn worker(ctx: &Ctx, res: &mut ShardResult) {
                                 if e.alts.len() < 2 { continue; }
                                 for k in 0..e.alts.len() { let mut q = p.clone(); q.children[ei].alts = vec![e.alts[k].clone()]; if !matches_somewhere(&q) { dead_branch = true; } }
                             }
-                            let fp = if p.has_quantifier() && !strict_matches_somewhere { "optional-impossible-child-rejected" } else if dead_branch { "alternation-with-impossible-branch-rejected" } else { "possible-pattern-rejected" };
+                            let fp = if ql.name == "nestf" && src.starts_with("(entry") && src.contains("key:") { "inner-field-of-fielded-hidden-rule-rejected" } else if p.has_quantifier() && !strict_matches_somewhere { "optional-impossible-child-rejected" } else if dead_branch { "alternation-with-impossible-branch-rejected" } else { "possible-pattern-rejected" };
                             res.violation(fp, format!("query {:?} was rejected as impossible but matches the error-free tree of {:?}", src, String::from_utf8_lossy(text)), case_json(ql.name, &src, text));
                             break;
                         }
